@@ -52,6 +52,14 @@ type Script struct {
 	Txns           []Txn         // in commit order, LSNs strictly increasing
 	KeepaliveEvery int           // keepalive after this many XLogData messages (0: none in between)
 	IdleKeepalive  time.Duration // keepalive period after the stream (default 100ms)
+
+	// Optional hooks; nil (the default) changes nothing.  They are called from the connection's
+	// goroutines without any server lock held.
+	OnStatus func(pos uint64, replyRequested bool) // a StandbyStatusUpdate has arrived (called before it is recorded)
+	OnStart  func(cmd StartCmd)                    // START_REPLICATION has arrived (called before anything is streamed)
+	// BeforeData is called before every XLogData message is sent.  A non-nil channel makes the
+	// stream wait until it is closed; keepalives keep flowing every IdleKeepalive meanwhile.
+	BeforeData func(lsn uint64, text string) <-chan struct{}
 }
 
 // Start records one START_REPLICATION command.
@@ -284,6 +292,9 @@ func (s *Server) serve(c net.Conn) {
 			if len(q.Data) >= 34 && q.Data[0] == 'r' {
 				pos := binary.BigEndian.Uint64(q.Data[1:])
 				reply := q.Data[33] != 0
+				if h := s.script.OnStatus; h != nil {
+					h(pos, reply)
+				}
 				s.mu.Lock()
 				s.status = append(s.status, pos)
 				s.cond.Broadcast()
@@ -328,6 +339,9 @@ func (s *Server) serve(c net.Conn) {
 					x.send(&pgproto3.ErrorResponse{Severity: "ERROR", Code: "42601", Message: "fakepg: bad LSN"}, &pgproto3.ReadyForQuery{TxStatus: 'I'})
 					continue
 				}
+				if h := s.script.OnStart; h != nil {
+					h(StartCmd{Slot: f[2], LSN: lsn, Raw: sql})
+				}
 				s.mu.Lock()
 				s.starts = append(s.starts, StartCmd{Slot: f[2], LSN: lsn, Raw: sql})
 				s.mu.Unlock()
@@ -368,6 +382,20 @@ func (x *session) stream(from uint64) {
 	end := s.walEnd()
 	sent := 0
 	data := func(lsn uint64, text string) bool {
+		if h := s.script.BeforeData; h != nil {
+			if gate := h(lsn, text); gate != nil {
+				for open := false; !open; {
+					select {
+					case <-gate:
+						open = true
+					case <-time.After(s.script.IdleKeepalive):
+						if x.send(keepalive(end, false)) != nil {
+							return false
+						}
+					}
+				}
+			}
+		}
 		if x.send(xlogData(lsn, end, text)) != nil {
 			return false
 		}
